@@ -626,6 +626,104 @@ func closeDuringDecode(id string, seed uint64) runner.Result {
 	return res
 }
 
+// localCloseSeenByWrite: the transport is closed underneath the connection by somebody else while the
+// connection's reader is not inside Read (it is parked with a message the application has not taken
+// yet), so the first to notice is a write. The connection must still report itself closed, and calls
+// that are waiting for their turn must return.
+func localCloseSeenByWrite(id string, seed uint64) runner.Result {
+	r := &payload.SplitMix{S: seed}
+	soft := r.Intn(2) == 0
+	mopts := drpcmanager.Options{SoftCancel: soft}
+	server := r.Intn(3) == 0 // the same on the server endpoint
+	hold := make(chan struct{})
+	var hst drpc.Stream
+	hready := make(chan struct{})
+	handler := rig.HandlerFunc(func(stream drpc.Stream, rpc string) error {
+		var m []byte
+		if err := stream.MsgRecv(&m, payload.Enc{}); err != nil {
+			return nil
+		}
+		if server {
+			hst = stream
+			close(hready)
+			<-hold
+			return nil
+		}
+		for i := 0; i < 2; i++ {
+			out := payload.Make(1, 1, 0, uint32(i), 20)
+			if stream.MsgSend(&out, payload.Enc{}) != nil {
+				return nil
+			}
+		}
+		<-stream.Context().Done()
+		return nil
+	})
+	rg := rig.New(rig.Config{Net: simnet.Opts{Cap: -1}, Client: mopts, Server: mopts}, handler)
+	defer rg.Teardown()
+	defer close(hold)
+	st, err := rg.Conn.NewStream(context.Background(), "/x", payload.Enc{})
+	if err != nil {
+		return runner.Inconcl(id, "NewStream: "+err.Error())
+	}
+	first := payload.Make(1, 0, 0, 0, 10)
+	st.MsgSend(&first, payload.Enc{})
+	desc := fmt.Sprintf("local-close-seen-by-write soft=%v endpoint-server=%v", soft, server)
+	var sender drpc.Stream = st
+	end := rg.Pair.A
+	if server {
+		if s, _ := census.QuiesceOr(hready, rig.Watchdog); s != "ready" {
+			return runner.Inconcl(id, "handler did not start")
+		}
+		// two more client messages: the server's reader parks with the first one nobody receives
+		for i := 1; i < 3; i++ {
+			m := payload.Make(1, 0, 0, uint32(i), 10)
+			st.MsgSend(&m, payload.Enc{})
+		}
+		sender, end = hst, rg.Pair.B
+	}
+	census.Quiesce(rig.Watchdog) // the reader of the endpoint is parked with a message nobody has received
+	var queued *rig.Op
+	if !server {
+		queued = rig.Go("queued-newstream", func() (interface{}, error) {
+			_, err := rg.Conn.NewStream(context.Background(), "/y", payload.Enc{})
+			return nil, err
+		})
+		census.Quiesce(rig.Watchdog)
+	}
+	end.Close() // somebody else closes the transport
+	census.Quiesce(rig.Watchdog)
+	m := payload.Make(1, 0, 0, 9, 10)
+	send := rig.Go("send", func() (interface{}, error) { return nil, sender.MsgSend(&m, payload.Enc{}) })
+	_, snap := census.Quiesce(rig.Watchdog)
+	var fails []string
+	if !send.Returned() {
+		fails = append(fails, "the send on the closed transport never returned")
+	} else if send.Err == nil {
+		fails = append(fails, "the send on the closed transport succeeded")
+	}
+	if server {
+		if !rg.ServeOp.Returned() {
+			// the handler is held by the scenario; what matters is that its stream has been told
+			if hst != nil && !rig.IsClosed(hst.Context().Done()) {
+				fails = append(fails, "after the failed write the server side does not consider the connection closed: the handler's stream context is not done")
+			}
+		}
+	} else {
+		if !rig.IsClosed(rg.Conn.Closed()) {
+			fails = append(fails, "after the failed write the connection does not report itself closed")
+		}
+		if queued != nil && !queued.Returned() {
+			fails = append(fails, "a NewStream that was waiting for its turn is still blocked")
+		}
+	}
+	if len(fails) > 0 {
+		return runner.Violation(id, "fault:local-close-seen-by-write:"+strings.ReplaceAll(strings.Join(strings.Fields(fails[0])[:6], "-"), ":", ""), desc+"\n"+strings.Join(fails, "\n")+"\n"+census.Dump(census.InDRPC(snap)))
+	}
+	res := runner.Hold(id, desc, true)
+	res.Events = 3
+	return res
+}
+
 func gen(tier string, seed uint64) []runner.Scenario {
 	var out []runner.Scenario
 	nraw := 300
@@ -634,6 +732,8 @@ func gen(tier string, seed uint64) []runner.Scenario {
 		i := i
 		idb := fmt.Sprintf("fault-with-blocked-ops/%d", i)
 		out = append(out, runner.Scenario{ID: idb, Run: func() runner.Result { return faultWithBlockedOps(idb, payload.Hash(seed, 0xC05D, uint64(i))) }})
+		idl := fmt.Sprintf("local-close-seen-by-write/%d", i)
+		out = append(out, runner.Scenario{ID: idl, Run: func() runner.Result { return localCloseSeenByWrite(idl, payload.Hash(seed, 0xC05E, uint64(i))) }})
 		id := fmt.Sprintf("close-during-decode/%d", i)
 		out = append(out, runner.Scenario{ID: id, Run: func() runner.Result { return closeDuringDecode(id, payload.Hash(seed, 0xC05C, uint64(i))) }})
 	}
